@@ -112,11 +112,11 @@ def handleDs (ts : List String) : String :=
       match sections with
       | [[w]] =>
         -- the implementation refused to write
+        -- ORACLE: every value is made of characters which the set in force encodes (the generator
+        -- guarantees it), so the data set must be writable
         if w == "write-err" then
-          if opq then s!"PROP-FAIL class=write-rejects-repertoire text made of characters of the set was rejected by the writer (scs={scsName})"
-          else if mWire.isSome then "MODEL-DIFF model writes, implementation returned an error"
-          else s!"ok ds-write-err-{scsName}"
-        else s!"MODEL-DIFF implementation: {w}"
+          s!"PROP-FAIL class=write-rejects-repertoire scs={scsName} the writer rejected {elems.map showElem} although every value is encodable in the set in force (model writes: {mWire.isSome})"
+        else s!"PROP-FAIL class=writer-failed scs={scsName} {w}"
       | ("wire" :: wn :: wrest) :: readSec =>
         match wn.toNat? with
         | none => "BAD-LINE"
@@ -225,7 +225,11 @@ def handle (line : String) : String :=
           | none => "BAD-LINE"
           | some name =>
             -- ORACLE: the defined term maps back to the same set
+            let tc := Charset.trimEndWs code
+            let termForm := (strOf "ISO_IR ").isPrefixOf tc || tc == strOf "GB18030" || tc == strOf "GBK"
             if back ≠ "same" then s!"PROP-FAIL class=name-roundtrip from_code(name()) of the set named {termName name} gives {back}"
+            else if termForm && name ≠ tc then
+              s!"PROP-FAIL class=name-roundtrip the defined term {termName tc} selects the set whose defined term is {termName name}"
             else match m with
               | none => s!"MODEL-DIFF from_code: model=none impl={termName name}"
               | some cs =>
